@@ -1,3 +1,4 @@
+import RulioModel.Gen.Loc
 import RulioProofs.StateC02
 import RulioProofs.ComposeState
 
@@ -305,3 +306,15 @@ example :
     exact List.all_eq_true.1 this e he
   exact ⟨hyps, search_exact _ 0 searchPatVar (run_kind _ _) hyps.1 hyps.2.1 hyps.2.2.1 hyps.2.2.2.1
     (hyps.2.2.2.2.for _)⟩
+
+
+/-! ## Which Go types the term extractor understands
+
+`extractTerms` of the model sees JSON. The real `extractTermsAux` sees Go values: JSON decoding yields `[]interface{}` and
+`map[string]interface{}`, the Javascript runtime (facts written by rule actions) also `[]string` and
+`[]map[string]interface{}`. A value of a type without a case is silently not indexed, and the fact is then not found by
+the indexed state until it is reloaded. The table is regenerated from `core/state_indexed.go` on every run. -/
+
+/-- the term extractor has a case for every shape in which strings, maps and arrays reach it -/
+theorem term_extractor_types :
+    Gen.termTypes = [["string", "map[string]interface{}", "[]interface{}", "[]string", "[]map[string]interface{}", "default"]] := by decide
